@@ -128,7 +128,7 @@ func runC02(c *Check) {
 	defer pool.Close()
 	graphs := enumGraphs(c.Tier, false)
 	// known-finding probe (excluded from the generated space because its two asynchronous chains race)
-	graphs = append(graphs, &ggraph{mods: []gmod{{"a", false, "exports"}, {"b", true, "exports"}, {"c", true, "exports"}}, edges: []gedge{{0, 1, "dyn"}, {1, 2, "dyn"}}, throwIn: -1})
+	graphs = append(graphs, &ggraph{mods: []gmod{{"a", false, "exports", false}, {"b", true, "exports", false}, {"c", true, "exports", false}}, edges: []gedge{{0, 1, "dyn"}, {1, 2, "dyn"}}, throwIn: -1})
 	c.Set("graphs", len(graphs))
 	root := scratchRoot("c02")
 	defer os.RemoveAll(root)
